@@ -8,16 +8,19 @@ import (
 
 func TestMain(m *testing.M) { vkit.Main(m) }
 
-func TestProp_Wrapper(t *testing.T) { PartWrapper.Run(t) }
-func TestProp_BTree(t *testing.T)   { PartBTree.Run(t) }
-func TestProp_Clones(t *testing.T)  { PartClones.Run(t) }
-func TestProp_Lin(t *testing.T)     { PartLin.Run(t) }
-func TestProp_Stress(t *testing.T)  { PartStress.Run(t) }
+func TestProp_Wrapper(t *testing.T)    { PartWrapper.Run(t) }
+func TestProp_BTree(t *testing.T)      { PartBTree.Run(t) }
+func TestProp_Clones(t *testing.T)     { PartClones.Run(t) }
+func TestProp_Lin(t *testing.T)        { PartLin.Run(t) }
+func TestProp_Stress(t *testing.T)     { PartStress.Run(t) }
+func TestProp_Big(t *testing.T)        { PartBig.Run(t) }
+func TestProp_StressWide(t *testing.T) { PartStressWide.Run(t) }
 
 // The TestRace_ functions are run by the driver from the binary built with -race.
-func TestRace_Clones(t *testing.T) { PartRaceClones.Run(t) }
-func TestRace_Lin(t *testing.T)    { PartRaceLin.Run(t) }
-func TestRace_Stress(t *testing.T) { PartRaceStress.Run(t) }
+func TestRace_Clones(t *testing.T)     { PartRaceClones.Run(t) }
+func TestRace_Lin(t *testing.T)        { PartRaceLin.Run(t) }
+func TestRace_Stress(t *testing.T)     { PartRaceStress.Run(t) }
+func TestRace_StressWide(t *testing.T) { PartRaceStressWide.Run(t) }
 
 func TestReplay(t *testing.T) {
 	PartWrapper.Replay(t, 1)
@@ -28,4 +31,7 @@ func TestReplay(t *testing.T) {
 	PartRaceClones.Replay(t, 50)
 	PartRaceLin.Replay(t, 200)
 	PartRaceStress.Replay(t, 50)
+	PartBig.Replay(t, 1)
+	PartStressWide.Replay(t, 50)
+	PartRaceStressWide.Replay(t, 50)
 }
